@@ -505,155 +505,3 @@ Proof. intros. split; [apply rt_cmp_exact | apply fold_cmp_exact]; assumption. Q
 Lemma wrap_value_correct_range t v : wf_ity t -> wrap_value t v = wrap t v /\ in_range t (wrap_value t v).
 Proof. intros Ht. split; [apply wrap_value_correct | apply wrap_value_range]; exact Ht. Qed.
 
-(* ---------------------------------------------------------------- nested expressions *)
-
-Definition rt_context_independent : Prop :=
-  forall o1 o2 t1 t2 t3 a b c, wf_ity t1 -> wf_ity t2 -> wf_ity t3 -> is_cmpop o1 = false ->
-    in_range t1 a -> in_range t2 b -> in_range t3 c ->
-    rt_nested_l o1 o2 t1 t2 t3 a b c = rt_stored_l o1 o2 t1 t2 t3 a b c.
-
-(* witnesses of the defects repaired by 1d3f0fa / 8eb30df *)
-Lemma nested_repaired_witnesses :
-  rt_nested_l Btdiv Bgt I8 U8 I8 (-128) 255 0 = Rbool false /\ rt_stored_l Btdiv Bgt I8 U8 I8 (-128) 255 0 = Rbool false /\
-  rt_nested_l Badd Bgt I8 I8 I8 127 1 0 = Rbool false /\ rt_stored_l Badd Bgt I8 I8 I8 127 1 0 = Rbool false /\
-  rt_nested_l Badd Bidiv U8 U8 U8 200 100 2 = Rval U8 22 /\ rt_stored_l Badd Bidiv U8 U8 U8 200 100 2 = Rval U8 22.
-Proof. repeat split. Qed.
-
-(* rt_bin always labels its value with the operation's result type *)
-Lemma rt_bin_type o lt rt a b ti v : rt_bin o lt rt a b = Rval ti v -> ti = rt_type o lt rt.
-Proof.
-  unfold rt_bin, of_val, of_call, of_bool, of_cmp. destruct o;
-    repeat match goal with
-    | |- context [match ?x with _ => _ end] => destruct x
-    end; try discriminate; intros [= <- _]; reflexivity.
-Qed.
-
-Lemma rt_bin_not_bool o lt rt a b r : is_cmpop o = false -> rt_bin o lt rt a b <> Rbool r.
-Proof.
-  intros Ho. unfold rt_bin, of_val, of_call. destruct o; try discriminate Ho;
-    repeat match goal with
-    | |- context [match ?x with _ => _ end] => destruct x
-    end; discriminate.
-Qed.
-
-(* the value of a plain C operator lies in the range of its C type *)
-Lemma quot_in_range ct x y : wf_ity ct -> in_range ct x -> in_range ct y -> y <> 0 ->
-  ~ (sgn ct = true /\ x = tmin ct /\ y = -1) -> in_range ct (Z.quot x y).
-Proof.
-  intros Hc Hx Hy Hy0 Hm.
-  pose proof (quot_bounds x y Hy0) as [Q1 _].
-  destruct (Z.eq_dec y (-1)) as [-> | Hy1].
-  - assert (E : Z.quot x (-1) = - x)
-      by (change (-1) with (Z.opp 1); rewrite Z.quot_opp_r by lia; rewrite Z.quot_1_r; reflexivity).
-    rewrite E. destruct (sgn ct) eqn:S.
-    + destruct (Z.eq_dec x (tmin ct)) as [Ex | Ex]; [exfalso; apply Hm; auto|].
-      revert Hx Ex S. ity_cases ct Hc; ity_norm; intros; try discriminate; lia.
-    + revert Hy S. ity_cases ct Hc; ity_norm; intros; try discriminate; lia.
-  - pose proof (quot_upper x y Hy0 Hy1) as Q3.
-    assert (Q4 : 0 <= x -> 0 < y -> 0 <= Z.quot x y) by (intros; apply Z.quot_pos; lia).
-    revert Hx Hy. ity_cases ct Hc; ity_norm; intros; lia.
-Qed.
-
-Lemma rem_in_range ct x y : wf_ity ct -> in_range ct x -> y <> 0 -> in_range ct (Z.rem x y).
-Proof.
-  intros Hc Hx Hy0. pose proof (rem_bounds x y Hy0) as [_ R2].
-  pose proof (Z.rem_sign_mul x y Hy0) as S.
-  assert (x < 0 -> Z.rem x y <= 0) by (intros; nia). assert (0 < x -> 0 <= Z.rem x y) by (intros; nia).
-  assert (x = 0 -> Z.rem x y = 0) by (intros ->; apply Z.rem_0_l; exact Hy0).
-  revert Hx. ity_cases ct Hc; ity_norm; intros; lia.
-Qed.
-
-Lemma plain_c_range o t1 t2 x y v : wf_ity t1 -> wf_ity t2 -> is_cmpop o = false ->
-  plain_c o t1 t2 x y = Some v -> in_range (c_arith_type t1 t2) v.
-Proof.
-  intros H1 H2 Ho. pose proof (wf_arith_type t1 t2 H1 H2) as Hc.
-  destruct o; try discriminate Ho; cbn [plain_c]; try discriminate.
-  - rewrite c_add_modular by (try assumption; reflexivity). intros [= <-]. apply wrap_range; exact Hc.
-  - rewrite c_sub_modular by (try assumption; reflexivity). intros [= <-]. apply wrap_range; exact Hc.
-  - rewrite c_mul_modular by (try assumption; reflexivity). intros [= <-]. apply wrap_range; exact Hc.
-  - unfold c_div, c_operands. set (ct := c_arith_type t1 t2) in *.
-    destruct (wrap ct y =? 0) eqn:E0; [discriminate|].
-    destruct (sgn ct && (wrap ct x =? tmin ct) && (wrap ct y =? -1)) eqn:E1; [discriminate|]. intros [= <-].
-    apply quot_in_range; try apply wrap_range; try assumption; try lia.
-    intros (S & A & B). rewrite S, A, B in E1. rewrite !Z.eqb_refl in E1. discriminate.
-  - unfold c_div, c_operands. set (ct := c_arith_type t1 t2) in *.
-    destruct (wrap ct y =? 0) eqn:E0; [discriminate|].
-    destruct (sgn ct && (wrap ct x =? tmin ct) && (wrap ct y =? -1)) eqn:E1; [discriminate|]. intros [= <-].
-    apply quot_in_range; try apply wrap_range; try assumption; try lia.
-    intros (S & A & B). rewrite S, A, B in E1. rewrite !Z.eqb_refl in E1. discriminate.
-  - unfold c_mod, c_operands. set (ct := c_arith_type t1 t2) in *.
-    destruct (wrap ct y =? 0) eqn:E0; [discriminate|].
-    destruct (sgn ct && (wrap ct x =? tmin ct) && (wrap ct y =? -1)); [discriminate|]. intros [= <-].
-    apply rem_in_range; try apply wrap_range; try assumption; lia.
-  - unfold c_mod, c_operands. set (ct := c_arith_type t1 t2) in *.
-    destruct (wrap ct y =? 0) eqn:E0; [discriminate|].
-    destruct (sgn ct && (wrap ct x =? tmin ct) && (wrap ct y =? -1)); [discriminate|]. intros [= <-].
-    apply rem_in_range; try apply wrap_range; try assumption; lia.
-  - unfold c_or, c_operands. intros [= <-]. apply wrap_range; exact Hc.
-  - unfold c_xor, c_operands. intros [= <-]. apply wrap_range; exact Hc.
-  - unfold c_and, c_operands. intros [= <-]. apply wrap_range; exact Hc.
-Qed.
-
-(* the C type of an unconverted wide expression is its Nelua type *)
-Lemma wide_type_eq o t1 t2 : wf_ity t1 -> wf_ity t2 -> is_cmpop o = false -> is_shiftop o = false ->
-  mixed t1 t2 = false -> (bits (rt_type o t1 t2) <? 32) = false -> c_arith_type t1 t2 = rt_type o t1 t2.
-Proof.
-  intros H1 H2 Hc Hs. unfold rt_type. rewrite Hs.
-  destruct (is_bitop o); ity_cases t1 H1; ity_cases t2 H2; vm_compute; intros; try reflexivity; try congruence.
-Qed.
-
-Lemma wide_self_type t : wf_ity t -> (bits t <? 32) = false -> c_arith_type t t = t.
-Proof. intros Ht. ity_cases t Ht; vm_compute; intros; try reflexivity; congruence. Qed.
-
-Lemma rt_type_wf o t1 t2 : wf_ity t1 -> wf_ity t2 -> wf_ity (rt_type o t1 t2).
-Proof. intros H1 H2. unfold rt_type. destruct (is_shiftop o); [exact H1|]. destruct (is_bitop o); ity_cases t1 H1; ity_cases t2 H2; reflexivity. Qed.
-
-(* operators emitted as a plain C operator: what rt_bin is for them *)
-Definition plain_op (o : binop) (t1 t2 : ity) : bool :=
-  negb (uses_helper o t1 t2) && negb (is_cmpop o) &&
-  negb (mixed t1 t2 && (match o with Btdiv | Btmod => true | _ => false end)).
-
-Lemma rt_bin_plain o t1 t2 a b : plain_op o t1 t2 = true ->
-  rt_bin o t1 t2 a b = of_val (rt_type o t1 t2) (plain_c o t1 t2 a b).
-Proof.
-  unfold plain_op, uses_helper, rt_bin. intros H.
-  destruct o; cbn [is_shiftop is_cmpop orb andb negb plain_c] in *; try discriminate H; try reflexivity;
-    repeat match goal with
-    | |- context [if ?c then _ else _] => destruct c; cbn [orb andb negb] in H; try discriminate H
-    end; reflexivity.
-Qed.
-
-(* FULL: the value of an operator result does not depend on whether it is stored first or consumed
-   directly by another operator - every non-comparison inner operator, every outer operator, all
-   types and ALL values *)
-Lemma rt_context_independent_holds : rt_context_independent.
-Proof.
-  intros o1 o2 t1 t2 t3 a b c H1 H2 _ Hc _ _ _. unfold rt_nested_l, rt_stored_l.
-  pose proof (rt_type_wf o1 t1 t2 H1 H2) as Hwt. set (t := rt_type o1 t1 t2) in *.
-  unfold rt_bin_c. fold t.
-  destruct (uses_helper o1 t1 t2) eqn:U.
-  { destruct (rt_bin o1 t1 t2 a b) as [ti v | r | m |] eqn:R; cbn [of_stored]; try reflexivity.
-    - apply rt_bin_type in R. subst ti. reflexivity.
-    - exfalso. exact (rt_bin_not_bool _ _ _ _ _ _ Hc R). }
-  rewrite Hc.
-  destruct (mixed t1 t2 && match o1 with Btdiv | Btmod => true | _ => false end) eqn:MD.
-  { (* (T)((T)l / (T)r) *)
-    apply andb_prop in MD. destruct MD as [M D].
-    assert (R : rt_bin o1 t1 t2 a b = of_val t (obind (c_conv Gnu t a) (fun a' => obind (c_conv Gnu t b) (plain_c o1 t t a')))).
-    { unfold rt_bin. fold t. destruct o1; try discriminate D; rewrite M; reflexivity. }
-    rewrite R. unfold of_val.
-    destruct (obind (obind (c_conv Gnu t a) (fun a' => obind (c_conv Gnu t b) (plain_c o1 t t a'))) (c_conv Gnu t));
-      cbn [omap]; reflexivity. }
-  assert (PO : plain_op o1 t1 t2 = true) by (unfold plain_op; rewrite U, Hc, MD; reflexivity).
-  rewrite (rt_bin_plain o1 t1 t2 a b PO). fold t. unfold of_val.
-  destruct (mixed t1 t2 || (bits t <? 32)) eqn:C.
-  { destruct (plain_c o1 t1 t2 a b) as [raw|]; cbn [obind omap]; [|reflexivity].
-    destruct (c_conv Gnu t raw); cbn [omap]; reflexivity. }
-  apply orb_false_elim in C. destruct C as [M W].
-  assert (Hs : is_shiftop o1 = false).
-  { unfold uses_helper in U. destruct (is_shiftop o1); [discriminate U | reflexivity]. }
-  pose proof (wide_type_eq o1 t1 t2 H1 H2 Hc Hs M W) as E. fold t in E.
-  destruct (plain_c o1 t1 t2 a b) as [raw|] eqn:P; cbn [obind omap]; [|reflexivity].
-  pose proof (plain_c_range o1 t1 t2 a b raw H1 H2 Hc P) as Hr. rewrite E in Hr |- *.
-  rewrite c_conv_inrange by assumption. reflexivity.
-Qed.
